@@ -205,7 +205,7 @@ theorem registry_proven : ∀ b ∈ Generated.registry, blueprintProven b = true
     blueprint): same chunk / combine kernels (+ the count column `nanlen` / `sum` / 0 when `min_count > 0`),
     `NINF ↦ -inf`, `INF ↦ inf`, `NA ↦ nan`, `simple_combine` = the functions named by `combine`, same finalizer. -/
 theorem registry_float_fills_resolved :
-    ∀ b ∈ Generated.registry, hasChunk b = true → floatRowsProven b = true ∧ floatRowsCount b = 16 := by
+    ∀ b ∈ Generated.registry, hasChunk b = true → floatRowsProven b = true ∧ floatRowsCount b = 20 := by
   intro b hb hc
   have hmem : b ∈ Generated.registry.filter hasChunk := List.mem_filter.mpr ⟨hb, hc⟩
   exact ⟨List.all_eq_true.mp registry_float_rows_proven b hmem,
